@@ -120,6 +120,7 @@ type Frag struct {
 	Type    codec.Command
 	Ok      bool // for mset
 	Done    bool // is the current frag completed
+	NoReply bool // the reply to this frag is consumed and dropped (ASKING before a redirected request)
 }
 
 func (f *Frag) MsgId() uint64 {
